@@ -34,7 +34,7 @@ ASSUMPTIONS = ["per-edge border model of the emitter's documentation: an interio
 
 CFG = gen.Cfg(max_cols=6, max_rows=40, nrow_range=(2, 30), allow_group_by=False, attrs=False, dividers=False, long_text=0.0,
               coord_tags=True, dtypes=("str",), nulls=False, components=False, page_geometry=False, page_borders=False,
-              header_modes=("default", "none"), max_page_by=3)
+              header_modes=("default", "none"), max_page_by=3, half_points=True)
 COORD = re.compile(r"^r(\d+)c(\d+)")
 BSTYLE = {"striped": "engraved"}     # two names, one RTF keyword
 DEFAULTS = {"text_font": 1, "text_font_size": 9, "text_format": "", "text_color": None, "text_background_color": None,
@@ -52,7 +52,7 @@ def _recipe(draw):
     sec = rec["sections"][0]
     n = R.nrows(sec)
     ncol = len(sec["df"]["cols"])
-    attrs = draw(gen.body_attrs(replace(CFG, attrs=True), n, ncol, p=P_ATTR))
+    attrs = draw(gen.body_attrs(replace(CFG, attrs=True), n, ncol, p=P_ATTR))   # half_points: integer, x.5 and off-grid sizes
     for k, v in attrs.items():
         sec["body"].setdefault(k, v)
     return rec
